@@ -387,15 +387,18 @@ impl ValveProtocol {
                 name: buffer.read_string::<Utf8Decoder>(None)?,
                 score: buffer.read()?,
                 duration: buffer.read()?,
-                deaths: match *engine == Engine::new(2400) {
-                    false => None,
-                    true => Some(buffer.read()?),
-                },
-                money: match *engine == Engine::new(2400) {
-                    false => None,
-                    true => Some(buffer.read()?),
-                },
+                deaths: None,
+                money: None,
             });
+        }
+
+        // The Ship appends its additional player info (deaths and money of every
+        // player) after all the regular player entries.
+        if *engine == Engine::new(2400) {
+            for player in &mut players {
+                player.deaths = Some(buffer.read()?);
+                player.money = Some(buffer.read()?);
+            }
         }
 
         Ok(players)
